@@ -127,6 +127,40 @@ fn main() {
                 writeln!(out, "{}", v.join(" ")).unwrap();
             }
         }
+        // HEX -> 0-based numbers of the lines that begin inside a block comment, a raw element or a string literal
+        // (their indentation is part of that token, not layout)
+        "cmtlines" => {
+            fn walk(n: &typst_syntax::SyntaxNode, off: &mut usize, text: &str, out: &mut Vec<usize>) {
+                use typst_syntax::SyntaxKind as K;
+                let len = n.len();
+                if matches!(n.kind(), K::BlockComment | K::Raw | K::Str) {
+                    let start_line = text[..*off].matches('\n').count();
+                    let inner = text[*off..*off + len].matches('\n').count();
+                    for k in 1..=inner {
+                        out.push(start_line + k);
+                    }
+                    *off += len;
+                    return;
+                }
+                if n.children().len() == 0 {
+                    *off += len;
+                    return;
+                }
+                for c in n.children() {
+                    walk(c, off, text, out);
+                }
+            }
+            for line in stdin.lock().lines() {
+                let line = line.unwrap();
+                let src = unhex(line.trim());
+                let source = Source::detached(src.clone());
+                let mut v = Vec::new();
+                let mut off = 0usize;
+                walk(source.root(), &mut off, &src, &mut v);
+                let w: Vec<String> = v.iter().map(|x| x.to_string()).collect();
+                writeln!(out, "{}", w.join(" ")).unwrap();
+            }
+        }
         // HEX -> tree dump
         "tree" => {
             for line in stdin.lock().lines() {
